@@ -39,7 +39,7 @@ fn gen_cases(prop: &str, rng: &mut Rng, tier: &str, outdir: &str) -> Vec<Line> {
       mintable::gen(rng, tier, &mut v);
       vec![(gen::P_MINT, 60, 300), (gen::P_SUPPLY, 10, 50)]
     }
-    "C37" => vec![(gen::P_EVENTS, 90, 450)],
+    "C37" => vec![(gen::P_EVENTS_SLOW, 3, 10), (gen::P_EVENTS, 90, 450)],
     "C11" => vec![(gen::P_ETCH, 60, 450), (gen::P_SUPPLY, 10, 80)],
     _ => vec![],
   };
@@ -69,7 +69,7 @@ fn run_case(prop: &str, case: &Line) -> Outcome {
   let mut c = Cur::new(case);
   match c.u8() {
     0 => mintable::run(&mut c),
-    2 => guarded("events", || {
+    2 | 3 => guarded("events", || {
       let (ch, same) = chain::rebuild(case);
       let mut problems = Vec::new();
       let obs = events::obs(&ch, &mut problems);
